@@ -235,85 +235,7 @@ func ruleWriteEverything(r *Run, rule string) {
 	// so "still looks as submitted" is no reason to leave an object out: every iteration of the loop over walk.Plan hands its
 	// item on — appends it, passes it to a function of the package, or writes it.
 	if walks {
-		badSkip := ""
-		var skipPos token.Pos = fn.Decl.Pos()
-		iters := 0
-		all := append(append([]Path{}, paths...), fl.Truncated()...)
-		for i := range all {
-			p := &all[i]
-			for j, h := range p.Ev {
-				if h.Kind != EvRange || !h.Taken {
-					continue
-				}
-				rs, _ := h.Clause.(*ast.RangeStmt)
-				if rs == nil {
-					continue
-				}
-				c, isCall := ast.Unparen(rs.X).(*ast.CallExpr)
-				if !isCall {
-					continue
-				}
-				if f, ok := calleeFunc(info, c); !ok || FuncKey(f) != "workflow/utils/walk.Plan" {
-					continue
-				}
-				var item types.Object
-				if rs.Key != nil {
-					item = ObjOf(info, rs.Key) // range-over-func with one value: it is the Key
-				}
-				if rs.Value != nil {
-					item = ObjOf(info, rs.Value)
-				}
-				end := -1
-				for x := j + 1; x < len(p.Ev); x++ {
-					if p.Ev[x].Kind == EvRange && p.Ev[x].Pos == h.Pos {
-						end = x
-						break
-					}
-				}
-				if end < 0 || item == nil {
-					continue
-				}
-				iters++
-				used := false
-				guard := ""
-				for x := j + 1; x < end; x++ {
-					e := p.Ev[x]
-					switch e.Kind {
-					case EvBranch:
-						if e.Cond != nil {
-							guard = ExprStr(e.Cond)
-						}
-					case EvAssign:
-						for _, rh := range e.Rhs {
-							if ce, ok := ast.Unparen(rh).(*ast.CallExpr); ok {
-								if id, ok := ce.Fun.(*ast.Ident); ok && id.Name == "append" && mentionsObj(info, ce, item) {
-									used = true
-								}
-							}
-						}
-					case EvCall:
-						if _, isUpd := isUpdaterCall(e); isUpd {
-							used = true
-						}
-						if e.Call != nil && strings.HasPrefix(CalleeKey(e), pkgSM+".") {
-							for _, a := range e.Call.Args {
-								if mentionsObj(info, a, item) {
-									used = true
-								}
-							}
-						}
-					}
-				}
-				if !used && badSkip == "" {
-					badSkip, skipPos = "an object the walk yields is passed over by "+ShortFn(wk)+" (last test: "+guard+"): what recovery repaired in memory only — an object stored Running and reset to NotStarted — is never written, the ended plan keeps Running objects in the store for ever", h.Pos
-				}
-			}
-		}
-		if iters == 0 {
-			r.Unresolved(rule, "iterations of the loop over walk.Plan in "+ShortFn(wk))
-		} else {
-			r.Check(rule, "writeEverything:no-item-passed-over", skipPos, badSkip == "", "%s", orOK(badSkip, "every item of the walk is handed on"))
-		}
+		ruleWalkLoopHandsOn(r, rule, "writeEverything", wk, fn, fl, paths)
 	}
 	kinds := objectKinds(r.P)
 	if len(kinds) < 5 {
@@ -1900,4 +1822,89 @@ func ruleContChannelsMade(r *Run, rule string) {
 		return
 	}
 	r.Check(rule, "cont-channel-made:block-literals", lpos, badLit == "", "%s", orOK(badLit, "every sm.block literal makes its channel"))
+}
+
+// ruleWalkLoopHandsOn: every iteration of a loop over walk.Plan in fn hands its item on — appends it, passes it to a function
+// of the package, or writes it (used for the writers of End, C04-R1, and of the stale-plan close-out, C11-R3).
+func ruleWalkLoopHandsOn(r *Run, rule, label, key string, fn *Func, fl *Flow, paths []Path) {
+	info := fl.Info
+	badSkip := ""
+	var skipPos token.Pos = fn.Decl.Pos()
+	iters := 0
+	all := append(append([]Path{}, paths...), fl.Truncated()...)
+	for i := range all {
+		p := &all[i]
+		for j, h := range p.Ev {
+			if h.Kind != EvRange || !h.Taken {
+				continue
+			}
+			rs, _ := h.Clause.(*ast.RangeStmt)
+			if rs == nil {
+				continue
+			}
+			c, isCall := ast.Unparen(rs.X).(*ast.CallExpr)
+			if !isCall {
+				continue
+			}
+			if f, ok := calleeFunc(info, c); !ok || FuncKey(f) != "workflow/utils/walk.Plan" {
+				continue
+			}
+			var item types.Object
+			if rs.Key != nil {
+				item = ObjOf(info, rs.Key) // range-over-func with one value: it is the Key
+			}
+			if rs.Value != nil {
+				item = ObjOf(info, rs.Value)
+			}
+			end := -1
+			for x := j + 1; x < len(p.Ev); x++ {
+				if p.Ev[x].Kind == EvRange && p.Ev[x].Pos == h.Pos {
+					end = x
+					break
+				}
+			}
+			if end < 0 || item == nil {
+				continue
+			}
+			iters++
+			used := false
+			guard := ""
+			for x := j + 1; x < end; x++ {
+				e := p.Ev[x]
+				switch e.Kind {
+				case EvBranch:
+					if e.Cond != nil {
+						guard = ExprStr(e.Cond)
+					}
+				case EvAssign:
+					for _, rh := range e.Rhs {
+						if ce, ok := ast.Unparen(rh).(*ast.CallExpr); ok {
+							if id, ok := ce.Fun.(*ast.Ident); ok && id.Name == "append" && mentionsObj(info, ce, item) {
+								used = true
+							}
+						}
+					}
+				case EvCall:
+					if _, isUpd := isUpdaterCall(e); isUpd {
+						used = true
+					}
+					if e.Call != nil && strings.HasPrefix(CalleeKey(e), relPkg(fn.Pkg.PkgPath)+".") {
+						for _, a := range e.Call.Args {
+							if mentionsObj(info, a, item) {
+								used = true
+							}
+						}
+					}
+				}
+			}
+			if !used && badSkip == "" {
+				badSkip, skipPos = "an object the walk yields is passed over by "+ShortFn(key)+" (last test: "+guard+"): what was changed in memory only (an object stored Running that recovery reset or the close-out failed) is never written, the finished plan keeps Running objects in the store for ever", h.Pos
+			}
+		}
+	}
+	if iters == 0 {
+		r.Unresolved(rule, "iterations of the loop over walk.Plan in "+ShortFn(key))
+	} else {
+		r.Check(rule, label+":no-item-passed-over", skipPos, badSkip == "", "%s", orOK(badSkip, "every item of the walk is handed on"))
+	}
 }
